@@ -2,13 +2,10 @@
    Independent of the models: only widths (w = sign+int+frac, with ONE sign bit) and fraction sizes appear.
 
    A w-bit encoding v in format (1, i, f) denotes the rational  sgn w v / 2^f  (two's complement over
-   the whole word, binary point f bits from the right).  `fxint` is the scaled integer, `fxQ` the value. *)
+   the whole word, binary point f bits from the right).  `fxint` is the scaled integer; the value itself, as a rational, is `fxQ` in Spec/C14Q.v. *)
 From V Require Import Base.Bits.
-From Coq Require Import QArith Qround.
-Open Scope Z_scope.
 
 Definition fxint (w v : Z) : Z := sgn w v.
-Definition fxQ (w f v : Z) : Q := Qmake (fxint w v) (Z.to_pos (2 ^ f)).
 
 (* encoding (mod 2^w: wrap-around on overflow) of the exact sum / difference; operands and result share one format,
    so the scaled integers add directly *)
@@ -19,10 +16,6 @@ Definition spec_sub (w a b : Z) : Z := (fxint w a - fxint w b) mod 2 ^ w.
    towards minus infinity (floor), wrapped to the wr-bit result word *)
 Definition spec_mul (wa fa wb fb wr fr a b : Z) : Z :=
   ((fxint wa a * fxint wb b) / 2 ^ (fa + fb - fr)) mod 2 ^ wr.
-(* the same thing said with rationals (proved equal for fa+fb-fr >= 0 in Proofs/C14/Spec.v) *)
-Definition spec_mul_Q (wa fa wb fb wr fr a b : Z) : Z :=
-  Qfloor (fxQ wa fa a * fxQ wb fb b * inject_Z (2 ^ fr)) mod 2 ^ wr.
-
 Definition spec_sign (w a : Z) : Z := if fxint w a <? 0 then 1 else 0.
 
 (* (gt, eq, lt) on the denoted values; both operands share a format so the scaled integers order them *)
